@@ -14,6 +14,14 @@
 //!                  a pending write, after which a consumer attaches.
 //!  * `faults-value`, `faults-map` – random conversations with a finite `empty_timeout`, virtual-time
 //!                  steps and the lane-side faults (alone and in the patterns above).
+//!  * `badframe-directed` – the lane emits one frame that is not what a lane emits (an `event` whose body
+//!                  is not a map message; bytes that are not an envelope) at five points of a
+//!                  two-consumer conversation, map runtime under each of five `BadFrameStrategy`s.
+//!  * `badframe-map`, `badframe-value` – random conversations with such frames.
+//!  * `feed-failure-directed` – three or four consumers, one stops listening, the lane sends a burst
+//!                  of padded events that the read task finds back to back (a consumer found dead while
+//!                  an event is fed, removed by its index).
+//!  * `feed-failure-value`, `feed-failure-map` – random conversations with such bursts.
 //!
 //! With `--prop C17` (inactivity shutdown at the level of the downlink runtime; the vote coordinator
 //! itself is the `vote` engine's) the engine runs instead:
@@ -64,6 +72,23 @@ fn run_script(cfg: &Config, script: &[Step], rng: &mut Rng, out: &mut CaseOut) {
     }
     order.sort();
     out.sig(&(cfg.kind, cfg.consumers.iter().map(|c| (c.sync, c.keep)).collect::<Vec<_>>()));
+    if cfg.badframes {
+        out.sig(&cfg.strategy);
+        for s in &obs.lane.sent {
+            match &s.kind {
+                peers::SentKind::BadEvent(b) => {
+                    out.sig(b);
+                    order.push((s.t0, 98, 15));
+                }
+                peers::SentKind::BadEnvelope(how) => {
+                    out.sig(&how.name());
+                    order.push((s.t0, 98, 16));
+                }
+                _ => {}
+            }
+        }
+        order.sort();
+    }
     for (_, who, k) in &order {
         out.sig(&(*who, *k));
     }
@@ -75,6 +100,11 @@ fn run_script(cfg: &Config, script: &[Step], rng: &mut Rng, out: &mut CaseOut) {
     out.add("frames-observed", sum.frames);
     out.add("events-delivered-to-consumers", sum.events_delivered);
     out.nontrivial = (sum.consumers_linked >= 2 || (cfg.faults && sum.consumers_linked >= 1)) && sum.events_delivered >= 1;
+    if cfg.badframes {
+        // a conversation of the `badframe-*` parts must have got its bad frame to a runtime that serves somebody
+        let bad_written = obs.lane.sent.iter().any(|s| matches!(s.kind, peers::SentKind::BadEvent(_) | peers::SentKind::BadEnvelope(_)) && s.t1.is_some());
+        out.nontrivial = sum.consumers_linked >= 1 && bad_written;
+    }
     if cfg.inactivity {
         // a conversation of the C17 parts must also have come to a verdict about its final idle period
         // (or the runtime had stopped by itself before)
@@ -88,6 +118,7 @@ fn run_script(cfg: &Config, script: &[Step], rng: &mut Rng, out: &mut CaseOut) {
         "consumers": cfg.consumers.iter().map(|c| json!({"sync": c.sync, "keep_linked": c.keep, "cap_note": c.cap_note, "cap_cmd": c.cap_cmd})).collect::<Vec<_>>(),
         "socket_caps": [cfg.cap_sock_out, cfg.cap_sock_in],
         "empty_timeout_ms": cfg.timeout_ms,
+        "bad_frame_strategy": cfg.strategy.name(),
         "steps": script.len(),
         "end": cfg.end.name(),
         "frames": sum.frames,
@@ -184,6 +215,30 @@ fn selftest(cfg: &Config, script: &[Step], obs: &run::Obs, out: &mut CaseOut) {
             o.runtime_alive_at_q = true;
             mutations.push(("runtime-kept-running-after-input-closed", "runtime-not-stopped/", o));
         }
+    }
+    // bad frames: the runtime does the opposite of what its strategy says
+    let bad_body_written = obs.lane.sent.iter().any(|s| matches!(s.kind, peers::SentKind::BadEvent(_)) && s.t1.map_or(false, |t| t < obs.q));
+    let nothing_else = obs.lane.reader_dropped.is_none() && obs.lane.writer_closed.is_none() && !obs.lane.sent.iter().any(|s| matches!(s.kind, peers::SentKind::BadEnvelope(_)));
+    if cfg.kind == LaneKind::Map && bad_body_written && nothing_else && obs.runtime_panic.is_none() && obs.ms_at_q < cfg.timeout_ms {
+        if cfg.strategy.aborts() && !obs.runtime_alive_at_q {
+            let mut o = obs.clone();
+            o.runtime_alive_at_q = true;
+            mutations.push(("runtime-kept-running-after-a-bad-frame-it-was-to-abort-on", "badframe/runtime-not-stopped/", o));
+        }
+        if !cfg.strategy.aborts() && obs.runtime_alive_at_q {
+            let mut o = obs.clone();
+            o.runtime_alive_at_q = false;
+            mutations.push(("runtime-stopped-after-a-bad-frame-it-was-to-ignore", "badframe/stopped-although-ignored/", o));
+        }
+    }
+    // the runtime closes the channel of a served consumer that listens, without `unlinked`, and keeps running
+    if let Some(c) = (0..obs.cons.len()).find(|c| obs.cons[*c].alive_at_q && obs.runtime_alive_at_q && obs.cons[*c].frames_at_q >= 1 && obs.cons[*c].frames[obs.cons[*c].frames_at_q - 1].1 != Note::Unlinked) {
+        let mut o = obs.clone();
+        let n = o.cons[c].frames_at_q;
+        o.cons[c].frames.truncate(n);
+        o.cons[c].end = Some(peers::ReaderEnd::Closed(obs.q.saturating_sub(1)));
+        o.cons[c].alive_at_q = false;
+        mutations.push(("channel-of-a-served-consumer-closed-without-unlinked", "session-dropped-without-unlinked/", o));
     }
     // C17: the runtime is still running at the end of a final idle period that was judged
     if let Some(fi) = &obs.final_idle {
@@ -360,6 +415,17 @@ fn inactivity_parts(s: &mut Session) {
             },
         );
     }
+    s.part(
+        "inactivity-extras-directed",
+        "five short scenarios x lane kind x empty_timeout 20 / 60 ms x 5 variants, each ending with the final idle period: (1) two consumers leave and the lane sends five events of 3 KB back to back - the read task finds both gone while it feeds them the fourth, its lists empty and its timer starts in that turn - then a third consumer arrives 2 ms before ... a timeout after; (2) one of three leaves and is found gone that way, the other two only listen and must be served for two more timeouts; (3) map runtime with a strategy that ignores bad frames: an event whose body is not a map message arrives while nobody is attached (timer running / vote cast), later a consumer comes and goes; (4) the same with a strategy that aborts: the runtime stops at once, which is not a stop for inactivity; (5) bytes that are not an envelope. Rules as in `inactivity-directed`; counters `c17/*`, `badframe/*`, `feed-failure/*`",
+        false,
+        script::INACTIVITY_EXTRA_CASES,
+        |i, rng, out| {
+            let (cfg, script, name) = script::inactivity_extra_case(i);
+            out.count(&format!("scenario-{name}"));
+            run_script(&cfg, &script, rng, out);
+        },
+    );
     let cases = s.args.budget(60_000, 1_500_000);
     inactivity_part(s, "inactivity-value", LaneKind::Value, cases);
     let cases = s.args.budget(60_000, 1_500_000);
@@ -423,5 +489,69 @@ fn main() {
     let cases = s.args.budget(60_000, 1_500_000);
     fault_part(&mut s, "faults-map", LaneKind::Map, cases);
 
+    extension_parts(&mut s);
+
     s.finish()
+}
+
+/// Parts added for code no other part runs (coverage measurement, ranked gaps 11 and 12).
+fn extension_parts(s: &mut Session) {
+    s.part(
+        "badframe-directed",
+        "every (lane kind; frame fault: 12 event bodies that are not map messages [map] or 4 envelope faults - a request tag, `linked` announcing a body, a node name that is not UTF-8, a strict prefix of a frame followed by the end of the stream; strategy of the map runtime: always-abort, report(always-abort), the same boxed, always-ignore, boxed report(always-ignore); point of a two-consumer conversation: established / behind the link answer while a consumer joins / nobody attached / before a late joiner / back to back with events while a consumer is stalled; 8 option combinations). Rules: `badframe/*` and the C07 oracles (abort: the runtime terminates and every served consumer is told `unlinked`, nothing after it; ignore: nobody is unlinked and the well-formed events are delivered completely and in order, `synced` states consistent; no consumer receives an event the lane did not send; envelope faults: grammar, events so far, `unlinked` if the runtime stops - whether it does is counted). Non-trivial when a consumer was linked and the bad frame completely written; distinct by the global order of receipts",
+        true,
+        s.args.budget(script::BADFRAME_CASES, script::BADFRAME_CASES).min(script::BADFRAME_CASES),
+        |i, rng, out| {
+            let (cfg, script, name) = script::badframe_case(i);
+            out.count(&format!("position-{name}"));
+            run_script(&cfg, &script, rng, out);
+        },
+    );
+    for (name, kind, quick, thorough) in [("badframe-map", LaneKind::Map, 12_000, 400_000), ("badframe-value", LaneKind::Value, 4_000, 100_000)] {
+        let cases = s.args.budget(quick, thorough);
+        s.part(
+            name,
+            "seeded conversation as in the parts `value` / `map`, map runtime with one of the five strategies, in which the lane emits one frame that is not what a lane emits (map: an event body that is not a map message, three times in four, up to three of them when the strategy ignores them; otherwise an envelope fault) at a random point after a consumer attached; rules as in `badframe-directed`; non-trivial when a consumer was linked and the bad frame completely written; counters `badframe/*`",
+            false,
+            cases,
+            |_i, rng, out| {
+                let (cfg, script) = {
+                    let mut g = Gen::new(rng);
+                    let cfg = g.badframe_config(kind);
+                    let script = g.script(&cfg, MAX_OPS);
+                    (cfg, script)
+                };
+                run_script(&cfg, &script, rng, out);
+            },
+        );
+    }
+    s.part(
+        "feed-failure-directed",
+        "lane kind x 3 / 4 consumers (notification channels of 64 KiB / 2 KiB) x the one that stops listening is the first / the second / the last to have attached x 4 option patterns x 4 variants: it drops its reader (says nothing) and the lane sends a burst of 5-6 events of 3 KB each with nothing in between / it leaves in the middle of such a burst / two leave, a burst after each / it leaves while the read task waits for a stalled consumer and the burst piles up in the socket. The read task finds the events back to back, flushes nobody in between, and learns that the consumer has gone while it feeds it the event that follows the first 8 KiB (`send_current`, removal by index). The C07 oracles: everybody else receives every event of the burst and everything after it, in order, and nobody's channel is closed without `unlinked`. Counters `feed-failure/*`; distinct by the global order of receipts",
+        true,
+        script::FEED_FAILURE_CASES,
+        |i, rng, out| {
+            let (cfg, script, name) = script::feed_failure_case(i);
+            out.count(&format!("variant-{name}"));
+            run_script(&cfg, &script, rng, out);
+        },
+    );
+    for (name, kind) in [("feed-failure-value", LaneKind::Value), ("feed-failure-map", LaneKind::Map)] {
+        let cases = s.args.budget(1_500, 60_000);
+        s.part(
+            name,
+            "seeded conversation as in the parts `value` / `map` with 3-4 consumers and a socket of 64 KiB, in which now and then a consumer stops listening and the lane sends a burst of 2-6 events padded to 1.5 - 9 KB with nothing in between; the C07 oracles; counters `feed-failure/*`",
+            false,
+            cases,
+            |_i, rng, out| {
+                let (cfg, script) = {
+                    let mut g = Gen::new(rng);
+                    let cfg = g.burst_config(kind);
+                    let script = g.script(&cfg, MAX_OPS);
+                    (cfg, script)
+                };
+                run_script(&cfg, &script, rng, out);
+            },
+        );
+    }
 }
